@@ -9,6 +9,7 @@ use std::num::Wrapping;
 impl ZipCryptoKeys {
     // ghost: the three keys as numbers (same view as in unit U10)
     pub open spec fn view(&self) -> Keys { Keys { k0: w32(self.key_0), k1: w32(self.key_1), k2: w32(self.key_2) } }
+//@use zc_keys_derive nobody
 }
 //@item src/zipcrypto.rs | struct ZipCryptoWriter
 // ghost: the buffering ZipCrypto writer is not a device
